@@ -56,8 +56,8 @@ func TestMain(m *testing.M) {
 				last, since = hb, time.Now()
 				continue
 			}
-			if time.Since(since) > 90*time.Second {
-				fmt.Fprintf(realStderr, "fatal error: watchdog: the simulation made no progress for 90s (a goroutine runs without reaching a scheduling point)\n\n%s\n", simrt.AllStacks())
+			if time.Since(since) > 240*time.Second {
+				fmt.Fprintf(realStderr, "fatal error: watchdog: the simulation made no progress for 240s (a goroutine runs without reaching a scheduling point)\n\n%s\n", simrt.AllStacks())
 				os.Exit(3)
 			}
 		}
